@@ -203,11 +203,10 @@ impl<'a, D: DependencyProvider> Encoder<'a, D> {
 
         // Add clauses for externally excluded candidates.
         for &(solvable, reason) in &package_candidates.excluded {
-            let variable = self.add_exclusion_clause(solvable.into(), reason);
-            debug_assert!(
-                self.state.decision_tracker.assigned_value(variable) != Some(true),
-                "it cannot be possible that the excluded candidate is already uninstallable"
-            )
+            // The candidate may already be installed: a solvable that was requested
+            // directly (a soft requirement) is decided before the candidates of its
+            // package are known. `add_exclusion_clause` reports the conflict.
+            self.add_exclusion_clause(solvable.into(), reason);
         }
     }
 
